@@ -3,6 +3,7 @@
 -/
 import CppUtil.Props.C03
 import CppUtil.Props.C01
+import CppUtil.Props.C07
 
 namespace CppUtil.Props
 open CppUtil CppUtil.WLock
@@ -58,5 +59,24 @@ def demoPrep : List Act :=
 
 example : ∃ s, run (Gen.opt 1) init demoPrep = some s ∧ holds s 1 .S ∧ verField s.w = 5 :=
   ⟨_, rfl, ⟨_, rfl, rfl⟩, by decide⟩
+
+
+/-! ## The composite guard class (client layer) -/
+
+open CppUtil.WClient
+
+/-- **an owning `CompositeGuard` is backed by a genuine shared grant**: in every state reachable by any schedule of
+    any well-formed client program, a composite guard with `has_lock_` points at a request that holds S on the guard's
+    lock (at every quantum boundary of its thread), and no other guard owns that grant — so it is released through this
+    guard only (`c07_client_release_enabled`, `c07_client_quiescent`: exactly once). -/
+theorem c13_client_owning_composite_holds_shared {P : WParams} {vo : Nat → Nat} {c0 c : Client} (hi : Initial c0)
+    (hwf : WF vo c0) (hr : ReachableC P c0 c) (v lk a : Nat) (hk : kindOf c v = .Comp) (h : own c v = some (lk, a))
+    (hb : (getThread c (vo v)).pend ≠ .none ∨ (getThread c (vo v)).finished = true) :
+    (∃ s, agentLoc c lk a = .held .S s) ∧ ∀ v', own c v' = some (lk, a) → v' = v := by
+  obtain ⟨s, hs⟩ := c07_client_owner_holds_at_boundary hi hwf hr v lk a h hb
+  rw [hk] at hs
+  refine ⟨⟨s, hs⟩, ?_⟩
+  intro v' h'
+  exact (c07_client_one_owner hi hwf hr).1 v' v (lk, a) h' h ⟨_, _, hs⟩
 
 end CppUtil.Props
